@@ -43,11 +43,18 @@ func (c *captureConn) SetDeadline(time.Time) error      { return nil }
 func (c *captureConn) SetReadDeadline(time.Time) error  { return nil }
 func (c *captureConn) SetWriteDeadline(time.Time) error { return nil }
 
-func clientHello(name string, small bool) []byte {
+func clientHello(name string, small bool) []byte { return clientHelloN(name, small, 0) }
+
+// clientHelloN: alpn > 0 adds that many 200-byte ALPN protocol names (a hello
+// of several KiB, still one TLS record).
+func clientHelloN(name string, small bool, alpn int) []byte {
 	cc := &captureConn{}
 	cfg := &tls.Config{ServerName: name, InsecureSkipVerify: true}
 	if small {
 		cfg.CurvePreferences = []tls.CurveID{tls.X25519}
+	}
+	for i := 0; i < alpn; i++ {
+		cfg.NextProtos = append(cfg.NextProtos, fmt.Sprintf("proto-%03d-", i)+strings.Repeat("x", 190))
 	}
 	tls.Client(cc, cfg).Handshake()
 	b := cc.w.Bytes()
@@ -59,17 +66,19 @@ func clientHello(name string, small bool) []byte {
 // a generated tunnel
 
 type tunnel struct {
-	kind       string // tcp, sni, dynamic, ws
-	pxyproto   bool
-	mode       string // both-finish-upstream-closes, both-finish-client-closes, client-only, upstream-only, half-close
-	client     []byte // application bytes the client sends (after the hello on sni)
-	upstream   []byte
-	cseg, useg []int // write sizes
-	cyield     []bool
-	uyield     []bool
-	withHello  int // sni: number of client bytes sent in the same write as the ClientHello
-	sniName    string
-	smallHello bool
+	kind        string // tcp, sni, dynamic, ws
+	pxyproto    bool
+	mode        string // both-finish-upstream-closes, both-finish-client-closes, client-only, upstream-only, half-close
+	client      []byte // application bytes the client sends (after the hello on sni)
+	upstream    []byte
+	cseg, useg  []int // write sizes
+	cyield      []bool
+	uyield      []bool
+	withHello   int // sni: number of client bytes sent in the same write as the ClientHello
+	sniName     string
+	smallHello  bool
+	alpn        int  // sni: number of 200-byte ALPN names in the hello (0-40: hello up to ~9 KiB)
+	eofWithData bool // stub kind: the last client chunk is returned together with io.EOF
 }
 
 func genStream(t *rapid.T, label string, allowEmpty bool) []byte {
@@ -145,6 +154,9 @@ func genTunnel(t *rapid.T, kinds []string) tunnel {
 	if tn.kind == "sni" {
 		tn.sniName = rapid.SampledFrom([]string{"sni.example.com", "a.b.example.org", "UPPER.example.com"}).Draw(t, "sni")
 		tn.smallHello = rapid.Bool().Draw(t, "smallhello")
+		if rapid.IntRange(0, 3).Draw(t, "bighello") == 0 {
+			tn.alpn = rapid.SampledFrom([]int{10, 19, 20, 21, 40}).Draw(t, "alpn")
+		}
 		if len(tn.client) > 0 && rapid.Bool().Draw(t, "withhello") {
 			tn.withHello = rapid.IntRange(1, min(len(tn.client), 3000)).Draw(t, "k")
 		}
@@ -153,7 +165,7 @@ func genTunnel(t *rapid.T, kinds []string) tunnel {
 }
 
 func (tn tunnel) String() string {
-	return fmt.Sprintf("kind=%s pxyproto=%v mode=%s client=%dB segments=%v upstream=%dB segments=%v bytes-with-hello=%d", tn.kind, tn.pxyproto, tn.mode, len(tn.client), trunc(tn.cseg), len(tn.upstream), trunc(tn.useg), tn.withHello)
+	return fmt.Sprintf("kind=%s pxyproto=%v mode=%s client=%dB segments=%v upstream=%dB segments=%v bytes-with-hello=%d alpn-names=%d", tn.kind, tn.pxyproto, tn.mode, len(tn.client), trunc(tn.cseg), len(tn.upstream), trunc(tn.useg), tn.withHello, tn.alpn)
 }
 
 func trunc(a []int) []int {
@@ -205,7 +217,7 @@ func runTunnel(tn tunnel) (res result) {
 
 	hello := []byte(nil)
 	if tn.kind == "sni" {
-		hello = clientHello(tn.sniName, tn.smallHello)
+		hello = clientHelloN(tn.sniName, tn.smallHello, tn.alpn)
 	}
 	wantUp := len(hello) + len(tn.client) // application bytes the upstream should read (after the PROXY line)
 
@@ -473,7 +485,7 @@ func checkTunnel(fatalf func(string, ...any), tn tunnel) {
 	hello := 0
 	wantUp := tn.client
 	if tn.kind == "sni" {
-		h := clientHello(tn.sniName, tn.smallHello)
+		h := clientHelloN(tn.sniName, tn.smallHello, tn.alpn)
 		hello = len(h)
 		// the random differs between two hellos: compare lengths and the bytes after it
 		if len(res.upstreamGot) >= hello {
@@ -511,6 +523,9 @@ func classify(tn tunnel) {
 	}
 	if tn.withHello > 0 {
 		hx.Class("data-in-the-ClientHello-segment")
+	}
+	if tn.alpn >= 20 {
+		hx.Class("ClientHello>4KiB")
 	}
 	if tn.pxyproto {
 		hx.Class("pxyproto")
@@ -560,4 +575,137 @@ func TestC09KnownHalfClose(t *testing.T) {
 	} else {
 		hx.Note("half-close finding is listed as known but no longer reproduces")
 	}
+}
+
+// ---------------------------------------------------------------------------
+// A connection whose Read hands out the final chunk together with io.EOF
+// (allowed by io.Reader; TLS-terminated listeners do it when the last record
+// and the close_notify alert arrive together): nothing may be lost.
+
+type scriptedConn struct {
+	chunks      [][]byte
+	eofWithLast bool
+	i           int
+	mu          sync.Mutex
+	got         bytes.Buffer
+	closed      chan struct{}
+	once        sync.Once
+	local       net.Addr
+}
+
+func (c *scriptedConn) Read(p []byte) (int, error) {
+	c.mu.Lock()
+	defer c.mu.Unlock()
+	if c.i >= len(c.chunks) {
+		return 0, io.EOF
+	}
+	n := copy(p, c.chunks[c.i])
+	if n < len(c.chunks[c.i]) {
+		c.chunks[c.i] = c.chunks[c.i][n:]
+		return n, nil
+	}
+	c.i++
+	if c.i == len(c.chunks) && c.eofWithLast {
+		return n, io.EOF
+	}
+	return n, nil
+}
+func (c *scriptedConn) Write(p []byte) (int, error) {
+	c.mu.Lock()
+	defer c.mu.Unlock()
+	return c.got.Write(p)
+}
+func (c *scriptedConn) Close() error        { c.once.Do(func() { close(c.closed) }); return nil }
+func (c *scriptedConn) LocalAddr() net.Addr { return c.local }
+func (c *scriptedConn) RemoteAddr() net.Addr {
+	return &net.TCPAddr{IP: net.IPv4(192, 0, 2, 7), Port: 4711}
+}
+func (c *scriptedConn) SetDeadline(time.Time) error      { return nil }
+func (c *scriptedConn) SetReadDeadline(time.Time) error  { return nil }
+func (c *scriptedConn) SetWriteDeadline(time.Time) error { return nil }
+
+func TestC09ReadWithEOF(t *testing.T) {
+	hx.Check(t, hx.Scale(300, 10000), func(t *rapid.T) {
+		kind := rapid.SampledFrom([]string{"tcp", "sni", "dynamic"}).Draw(t, "kind")
+		data := genStream(t, "c", false)
+		sizes, _ := genSegments(t, "cs", len(data))
+		up, err := net.Listen("tcp", "127.0.0.1:0")
+		if err != nil {
+			t.Fatal(err)
+		}
+		defer up.Close()
+		gotc := make(chan []byte, 1)
+		go func() {
+			c, err := up.Accept()
+			if err != nil {
+				gotc <- nil
+				return
+			}
+			defer c.Close()
+			c.SetDeadline(time.Now().Add(ioTimeout))
+			b, _ := io.ReadAll(c)
+			gotc <- b
+		}()
+		var hello []byte
+		if kind == "sni" {
+			hello = clientHelloN("sni.example.com", true, rapid.SampledFrom([]int{0, 0, 25}).Draw(t, "alpn"))
+		}
+		in := &scriptedConn{eofWithLast: rapid.IntRange(0, 3).Draw(t, "eofWithLast") > 0, closed: make(chan struct{}), local: &net.TCPAddr{IP: net.IPv4(127, 0, 0, 1), Port: 7443}}
+		if hello != nil {
+			k := rapid.IntRange(0, min(len(data), 2000)).Draw(t, "withhello")
+			in.chunks = append(in.chunks, append(append([]byte{}, hello...), data[:k]...))
+			data2, off := data[k:], 0
+			for _, sz := range sizes {
+				if off >= len(data2) {
+					break
+				}
+				e := min(off+sz, len(data2))
+				in.chunks = append(in.chunks, data2[off:e])
+				off = e
+			}
+			if off < len(data2) {
+				in.chunks = append(in.chunks, data2[off:])
+			}
+		} else {
+			off := 0
+			for _, sz := range sizes {
+				in.chunks = append(in.chunks, data[off:off+sz])
+				off += sz
+			}
+		}
+		tg := &route.Target{Service: "svc", URL: &url.URL{Scheme: "tcp", Host: up.Addr().String()}}
+		lookup := func(string) *route.Target { return tg }
+		var h tcp.Handler
+		switch kind {
+		case "tcp":
+			h = &tcp.Proxy{Lookup: lookup, DialTimeout: 5 * time.Second}
+		case "sni":
+			h = &tcp.SNIProxy{Lookup: lookup, DialTimeout: 5 * time.Second}
+		default:
+			h = &tcp.DynamicProxy{Lookup: lookup, DialTimeout: 5 * time.Second}
+		}
+		done := make(chan struct{})
+		go func() { h.ServeTCP(in); close(done) }()
+		var got []byte
+		select {
+		case got = <-gotc:
+		case <-time.After(ioTimeout + 2*time.Second):
+			t.Fatalf("upstream never saw the end of the stream (kind %s)", kind)
+		}
+		<-done
+		hx.Eval()
+		if hello != nil {
+			if len(got) < len(hello) {
+				t.Fatalf("upstream received %d bytes, less than the ClientHello (%d)", len(got), len(hello))
+			}
+			got = got[len(hello):]
+		}
+		if !bytes.Equal(got, data) {
+			t.Fatalf("client finished after sending %d bytes (last chunk delivered together with EOF: %v); upstream received %d (first difference at %d)\nkind=%s chunks=%d", len(data), in.eofWithLast, len(got), firstDiff(got, data), kind, len(in.chunks))
+		}
+		if in.eofWithLast {
+			hx.NonTrivial(fmt.Sprintf("eof|%s|%d|%v", kind, len(data), trunc(sizes)))
+			hx.Class("last-chunk-with-EOF")
+		}
+	})
 }
